@@ -379,6 +379,12 @@ Definition hist_replay (sj : subj) (o : oid) : list req :=
 Definition handle_sub (w : world) (k : nat) : list req :=
   match handles w k with Some (_, Some s) => [SubUnsub s] | _ => [] end.
 
+(* a hand-driven source pushes one event to every observer it was handed: like a one-event script per observer, with
+   the instrumentation of the scripted sources - is_subscribed of that observer is recorded before and after the
+   delivery, under the source id 1000+s and the observer's index in place of the attempt *)
+Definition push_reqs (s : nat) (e : ev) (l : list oid) : list req :=
+  map (fun jo : nat * oid => Src (1000 + s) (fst jo) (snd jo) [e] 0) (combine (seq 0 (length l)) l).
+
 Definition step (r : req) (w : world) : list req * world :=
   match r with
   (* ---- Observer::next / error / complete (observer.rs) ---- *)
@@ -703,7 +709,7 @@ Definition step (r : req) (w : world) : list req * world :=
                      | RUnsub k' => handle_sub w k'
                      | REmit h e => [SubjCall h e]
                      | RSub k' p => [DoSub k' p []]
-                     | RPush s e => map (fun o => Deliver o e) (manual w s)
+                     | RPush s e => push_reqs s e (manual w s)
                      end
                    else []) (reacts w k), w)
   | DoSub k p rs =>
@@ -731,7 +737,7 @@ Definition step (r : req) (w : world) : list req * world :=
           let '(o', w2) := alloc_obs w1 (TFeed (k_subj cn)) in
           ([SubscribePipe (k_src cn) o'; MkSub o' (DConn x); Snap], w2)
       | DDisconnect x => (match chandles w1 x with Some s => [SubUnsub s] | None => [] end ++ [Snap], w1)
-      | DPush s e => (map (fun o => Deliver o e) (manual w1 s) ++ [Snap], w1)
+      | DPush s e => (push_reqs s e (manual w1 s) ++ [Snap], w1)
       end
   end.
 
